@@ -240,4 +240,7 @@ pub fn run(g: &mut Global) {
         g.random("deep", 3000, &move || strategy(64, true), &check);
     }
     g.random("dataitem", g.tier.pick(4000, 40000), &item_strategy, &check_item);
+    if g.tier == Tier::Thorough {
+        g.fuzz_stage("ops_equiv", Some(2), 2_000_000, "random", &|b| crate::fuzzdec::decode_c06(b), &check);
+    }
 }
